@@ -50,10 +50,10 @@ def type_text(spec):
     tys = []
     for t in spec["ftypes"]:
         # sterm / sw: the same two types, spelled through `Self` (a projection of a trait the struct implements)
-        tys.append({"term": TERM, "w": W, "T": "T", "U": "U", "sterm": "<Self as HasTy>::A", "sw": "<Self as HasTy>::B"}[t])
+        tys.append({"term": TERM, "w": W, "T": "T", "U": "U", "sterm": "<Self as HasTy>::A", "sw": "<Self as HasTy>::B", "fwdT": "::dxrt::Fwd<T>"}[t])
     g = ""
     if spec["generic"]:
-        ps = sorted({t for t in spec["ftypes"] if t in ("T", "U")})
+        ps = sorted({"T" if t == "fwdT" else t for t in spec["ftypes"] if t in ("T", "U", "fwdT")})
         g = "<" + ", ".join(ps) + ">"
     b = spec.get("bound") or ""
     arg = "bound(..)" if b.endswith("(..)") else "bound()"
@@ -82,19 +82,21 @@ def type_text(spec):
 def inst(spec):
     if not spec["generic"]:
         return "Ty"
-    ps = sorted({t for t in spec["ftypes"] if t in ("T", "U")})
+    ps = sorted({"T" if t == "fwdT" else t for t in spec["ftypes"] if t in ("T", "U", "fwdT")})
     return "Ty<" + ", ".join(TERM if p == "T" else W for p in ps) + ">"
 
 
 def fkind(spec, i):
     t = spec["ftypes"][i]
-    return {"term": "term", "w": "w", "T": "term", "U": "w", "sterm": "term", "sw": "w"}[t]
+    return {"term": "term", "w": "w", "T": "term", "U": "w", "sterm": "term", "sw": "w", "fwdT": "term"}[t]
 
 
 def mk(spec, side, pair):
     vals = []
     for i in range(len(spec["ftypes"])):
-        if fkind(spec, i) == "term":
+        if spec["ftypes"][i] == "fwdT":
+            vals.append(f'::dxrt::Fwd({TERM}::new("{side}{i}"))')
+        elif fkind(spec, i) == "term":
             vals.append(f'{TERM}::new("{side}{i}")')
         else:
             vals.append(f"{W}({WVALS[(pair + i) % len(WVALS)][0 if side == 'a' else 1]})")
@@ -109,7 +111,9 @@ def dump_fn(spec):
     parts = []
     for i in range(len(spec["ftypes"])):
         acc = f"x.{fname(spec, i)}" if spec["style"] == "named" else f"x.{i}"
-        if fkind(spec, i) == "term":
+        if spec["ftypes"][i] == "fwdT":
+            parts.append(f"{acc}.0.0.clone()")
+        elif fkind(spec, i) == "term":
             parts.append(f"{acc}.0.clone()")
         else:
             parts.append(f"format!(\"{{}}\", {acc}.0)")
@@ -157,7 +161,7 @@ def control(spec):
     t = re.sub(r"#\[derive_ex\(.*?\)\] ", "", t).replace("#[debug(ignore)] ", "")
     g = ""
     if spec["generic"]:
-        ps = sorted({x for x in spec["ftypes"] if x in ("T", "U")})
+        ps = sorted({"T" if x == "fwdT" else x for x in spec["ftypes"] if x in ("T", "U", "fwdT")})
         g = "<" + ", ".join(ps) + ">"
     me = "Ty" + g
     out = [t]
@@ -264,6 +268,9 @@ def corpus(tier, rng):
         k += 1
         specs.append(make_spec([op], "named" if k % 2 else "tuple", ["sterm", "w", "sw"][: 2 + k % 2], entry="attr" if k % 3 else "derive"))
     specs.append(make_spec(["Add", "SubAssign", "Neg"], "named", ["T", "sterm", "sw"], True, "attr"))
+    # a field type whose spelling contains a later field's type (`Fwd<T>` in front of `T`): each needs its own predicate
+    for k2, op in enumerate(C.BINOPS + C.ASSIGNOPS):
+        specs.append(make_spec([op], "tuple" if k2 % 2 else "named", ["fwdT", "T", "w"][: 2 + k2 % 2], True, "attr" if k2 % 3 else "derive"))
     nextra = 150 if tier == "quick" else 1500
     for _ in range(nextra):
         n = rng.randint(1, 4)
